@@ -34,4 +34,20 @@ CHECKS = {
         note="Assumes the documented preconditions of write_continue (non-empty line, no trailing form feed). "
              "Lexers in vf/lex.py are the trusted base for the metamorphic part.",
     ),
+    "C17": dict(
+        level="exploration",
+        technique="property-based fuzzing of the parser and validators (Hypothesis token-level generation, "
+                  "single-token mutation, random sequences; exhaustive attribute name x form x site product) "
+                  "with an exception-class oracle and must-accept / must-reject sets",
+        design_ref="DESIGN.md section 4, C17",
+        text="Generated valid declarations must be accepted; mutants, random token sequences and expression strings "
+             "must end in acceptance or a RuntimeError/SystemExit-style diagnostic raised by an explicit raise inside "
+             "shroud/ (parser messages must carry the text and a caret), never an internal exception or a hang; text "
+             "after the terminating ';', unbalanced brackets and the documented illegal attribute combinations must be "
+             "rejected; every attribute name x value form x site is pushed through the whole pipeline; the real command "
+             "line must exit non-zero with a message and write no wrapper source.",
+        note="Classification of diagnostic vs internal follows the exception classes named in the property. Must-reject "
+             "sets are restricted to provably ill-formed text. Failures are bucketed by (exception type, innermost "
+             "shroud frame) and token-minimised.",
+    ),
 }
